@@ -1385,6 +1385,10 @@ class Interp:
     def binop(self, op, a, b):
         from .strings import SStr
 
+        if type(a).__name__ == "_NaN" or type(b).__name__ == "_NaN":
+            # IEEE: arithmetic with a missing value is a missing value
+            if isinstance(op, (ast.Add, ast.Sub, ast.Mult, ast.Div, ast.FloorDiv, ast.Mod, ast.Pow)) and not hasattr(a, "_pyvc_binop") and not hasattr(b, "_pyvc_binop"):
+                return a if type(a).__name__ == "_NaN" else b
         if hasattr(a, "_pyvc_binop"):
             r = a._pyvc_binop(self, op, b, False)
             if r is not NotImplemented:
@@ -1550,6 +1554,8 @@ class Interp:
             r = b._pyvc_compare(self, op, a, True)
             if r is not NotImplemented:
                 return r
+        if type(a).__name__ == "_NaN" or type(b).__name__ == "_NaN":
+            return False  # IEEE: every ordering comparison with NaN is false
         if isinstance(a, SObj) or isinstance(b, SObj):
             return self.obj_compare(op, a, b)
         if a is None or b is None:
